@@ -67,7 +67,7 @@ AB_NOTE = ("Trusted: TLC, the gate scheduler (goroutines parked at the verif yie
            "gate/free-running scenarios up to 4 accessors and 3 flushers.")
 CHECKS["C16"] = dict(
    technique="TLA+ model AccessBarrier.tla (one action per atomic operation) exhausted by TLC; TLC-simulated behaviours replayed as gate schedules on the real barrier; TLC trace validation at API grain (BarrierAPI.tla) and step conformance (Trace_AccessBarrier.tla)",
-   text="TLC enumerates every interleaving of the barrier's atomic steps for the bounded instances and checks in-order/once destruction, waiting for earlier accessors, no holder in a destructed session and the code's two panics. The real barrier is executed under a deterministic gate scheduler following TLC-simulated behaviours and seeded random schedules, plus free-running goroutines; every execution is validated by TLC: destructor invocations relative to Acquire/Release/FlushSession events decide the property, and the real counters must equal the model's after every step (binding).",
+   text="TLC enumerates every interleaving of the barrier's atomic steps for the bounded instances and checks in-order/once destruction, waiting for earlier accessors, no holder in a destructed session and the code's two panics. The real barrier is executed under a deterministic gate scheduler following TLC-simulated behaviours and seeded random schedules, plus free-running goroutines; every execution is validated by TLC: destructor invocations relative to Acquire/Release/FlushSession events decide the property, and the real counters must equal the model's after every step (binding). A scale scenario holds 70 000 (thorough: 200 000) tokens of one session at once across two flushes.",
    design_ref="DESIGN.md 4.2, 6 (C16/C17)", note=AB_NOTE)
 CHECKS["C17"] = dict(
    technique="TLA+ model AccessBarrier.tla (NothingPending at quiescence) exhausted by TLC; gate-scheduled and free-running executions of the real barrier validated by TLC (BarrierAPI.tla: quiescent => destructor calls = flush calls)",
@@ -96,7 +96,8 @@ NW_NOTE = ("Trusted: TLC; the harness allocators (registry with poison, guard pa
            "event order = logger mutex order (Call before the call, Ret after it). Free-running schedules are sampled by the Go scheduler, not enumerated (the instruction-wide windows of the skiplist, barrier and "
            "snapshot handles are enumerated by the C13/C16/C17/C08 checks under the gate). NitroWriters.tla instances: 2-3 writers x 2-4 calls on one key, two epochs. "
            "NitroWriters.tla is also bound under the gate scheduler (vh nw): TLC-simulated behaviours and random schedules drive real writers from one nitro yield point to the next, the free worker is held at its hook, "
-           "every model action is one event and Trace_NitroWriters.tla compares every node's real fields, garbage lists and allocator verdicts after every step.")
+           "every model action is one event and Trace_NitroWriters.tla compares every node's real fields, garbage lists and allocator verdicts after every step; "
+           "a scenario whose control flow leaves the step model is judged by NitroWritersAPI.tla from path-independent facts (two successful deletes of one version, allocator errors, leaks) before it is reported as model drift.")
 CHECKS["C03"] = dict(
    technique="TLA+ model NitroWriters.tla (writer paths at atomic-step grain) exhausted by TLC and replayed step by step on the real writers under a gate scheduler (Trace_NitroWriters.tla); TLC searches a linearization of every recorded concurrent history incl. the next snapshot's content and Count (SetLin.tla)",
    text="NitroWriters.tla splits Put/Delete2 into lookup-under-token, bornSn read, same-epoch mark / deadSn CAS, list append and session flush and TLC checks one winner per delete and at most one live version for every interleaving of 2-3 writers. Real writers (2-6 goroutines, shared keys, same- and cross-epoch deletes, with concurrent readers) run free between quiescent NewSnapshots; SetLin.tla makes TLC place a linearization point between each Call and Ret such that all results, the snapshot scan, Count(), ItemsCount, every concurrent reader's scan and the final physical chain are explained; no placement = violation. Start-gun scenarios release all writers on the same key at the same instant (spin barrier); the gate scheduler runs in bursts (stickiness drawn from the seed).",
